@@ -97,7 +97,11 @@ def default_pick(prog, root, keep=(), cross=None):
         if g.vis == "pub" or g.kind == "closure":
             return False
         if g.file != root.file and not (cross is not None and cross(g)):
-            return False     # crate-internal API of another module (a primitive), not a local helper
+            # a helper that lives in another file is still this file's helper if nobody else uses it
+            # (a private module split off the file); anything shared is a crate-internal API
+            users = {h.file for h in prog.callers(g)} - {g.file}
+            if users != {root.file}:
+                return False
         for k in keep:
             if callable(k):
                 if k(g):
@@ -127,6 +131,9 @@ COMBINATORS = {
     "std::result::Result::<T, E>::unwrap_or_else": ("res", "Err", "val", "direct", "payload"),
     "std::result::Result::<T, E>::is_ok_and": ("res", "Ok", "val", "direct", "false"),
     "std::result::Result::<T, E>::is_err_and": ("res", "Err", "val", "direct", "false"),
+    # bool::then(f): true -> Some(f()), false -> None
+    "std::bool::<impl bool>::then": ("bool", "true", "nil", "wrap:opt:Some", "none"),
+    "core::bool::<impl bool>::then": ("bool", "true", "nil", "wrap:opt:Some", "none"),
     # three-argument form: (scrutinee, default, closure)
     "std::option::Option::<T>::map_or": ("opt", "Some", "val", "direct", "default"),
     "std::result::Result::<T, E>::map_or": ("res", "Ok", "val", "direct", "default"),
@@ -153,16 +160,26 @@ def _expand_combinator(prog, t, locals_, blocks, b, file_):
     dflt = t["args"][1] if (obranch == "default" or passing == "dflt") else None
     clo = None if passing == "dflt" else t["args"][-1]
     g = None
+    fitem = None
     if clo is not None:
-        if clo.get("k") not in ("copy", "move") or clo["p"]:
-            return None
-        cty = locals_[clo["l"]]
-        g = prog.by_key.get(cty.get("key")) if cty.get("k") == "closure" else None
-        if g is None or not g.blocks:
-            return None
-    path, variants = ADT[adt]
+        if clo.get("k") == "const" or (clo.get("k") in ("copy", "move") and _closure_of(locals_, blocks, clo["l"]) is None):
+            # a function item used as the callable (`.map_err(Error::from)`, a `fn` handed through a helper)
+            fitem = _fn_item_of(locals_, blocks, clo)
+            if fitem is None or prog.by_key.get(fitem["fn_key"]) is None:
+                return None
+            g = prog.by_key[fitem["fn_key"]]
+            if not g.blocks:
+                return None
+        else:
+            if clo.get("k") not in ("copy", "move") or clo["p"]:
+                return None
+            cl = _closure_of(locals_, blocks, clo["l"])
+            g = prog.by_key.get(locals_[cl].get("key")) if cl is not None else None
+            if g is None or not g.blocks:
+                return None
+    path, variants = ADT[adt] if adt != "bool" else ("bool", ["false", "true"])
     other_variant = [v for v in variants if v != run_variant][0]
-    want_argc = 1 if passing == "nil" else 2
+    want_argc = (1 if passing == "nil" else 2) - (1 if fitem is not None else 0)
     if g is not None and g.argc != want_argc:
         return None
     ln = t.get("ln")
@@ -198,7 +215,7 @@ def _expand_combinator(prog, t, locals_, blocks, b, file_):
     recv_ty = g.locals[1] if g is not None else {"t": "?"}
     pre = []
     recv = None
-    if g is None:
+    if g is None or fitem is not None:
         pass
     elif recv_ty.get("t", "").startswith("&"):
         r_l = nl(recv_ty)
@@ -222,19 +239,21 @@ def _expand_combinator(prog, t, locals_, blocks, b, file_):
         o_st = [assign(copy.deepcopy(dest), {"k": "use", "x": {"k": "move", "l": s_l, "p": []}})]
     b_other = nb(o_st, {"k": "goto", "t": target})
     # --- the branch that runs the closure
-    args = [recv]
+    args = [recv] if fitem is None else []
     c_st = list(pre)
+    pidx = 2 if fitem is None else 1      # index of the payload parameter in the callee
     if g is None:
         pass
     elif passing == "val":
-        a_l = nl(g.locals[2])
+        a_l = nl(g.locals[pidx])
         c_st.append(assign(pl(a_l), {"k": "use", "x": payload(s_l, run_variant)}))
         args.append({"k": "move", "l": a_l, "p": []})
     elif passing == "ref":
-        a_l = nl(g.locals[2])
+        a_l = nl(g.locals[pidx])
         c_st.append(assign(pl(a_l), {"k": "ref", "mut": False, "place": pl(s_l, [{"variant": run_variant, "vi": variants.index(run_variant)}, {"f": 0, "n": "0"}])}))
         args.append({"k": "move", "l": a_l, "p": []})
-    callee = {"key": g.key, "local": True, "path": g.path, "full": g.path, "name": "{closure}", "closure_call": True} if g is not None else None
+    callee = {"key": g.key, "local": True, "path": g.path, "full": g.path, "name": g.name if fitem is not None else "{closure}",
+              "closure_call": fitem is None} if g is not None else None
     if cbranch == "default":
         b_call = nb([assign(copy.deepcopy(dest), {"k": "use", "x": copy.deepcopy(dflt)})], {"k": "goto", "t": target})
     elif cbranch == "direct":
@@ -253,6 +272,10 @@ def _expand_combinator(prog, t, locals_, blocks, b, file_):
     # --- the dispatching block (replaces the combinator call)
     blk = blocks[b]
     blk["s"].append(assign(pl(s_l), {"k": "use", "x": copy.deepcopy(scr)}))
+    if adt == "bool":
+        blk["t"] = {"k": "switch", "x": {"k": "copy", "l": s_l, "p": []}, "arms": [[0, b_other]], "otherwise": b_call, "ln": ln,
+                    "expanded": fj.get("path")}
+        return new
     blk["s"].append(assign(pl(d_l), {"k": "discr", "place": pl(s_l)}))
     vi_run = variants.index(run_variant)
     blk["t"] = {"k": "switch", "x": {"k": "move", "l": d_l, "p": []}, "arms": [[vi_run, b_call]], "otherwise": b_other, "ln": ln,
